@@ -28,7 +28,7 @@ func DrawConnClient(t *rapid.T, ci int, kind string, hsTimeout int) (*ClientPlan
 		}
 		cp.Hello = DrawHello(t, HelloOpts{Proto: m.Proto})
 		if m.Proto == "h2" {
-			sc := DrawH2Script(t, H2GenOpts{ClientID: ci, MaxReqs: 2, ExtraMax: 1})
+			sc := DrawH2Script(t, H2GenOpts{ClientID: ci, MaxReqs: 2, ExtraMax: 1, Bodies: true})
 			m.Script = sc
 			for _, r := range sc.Reqs {
 				m.Reqs = append(m.Reqs, r.Spec)
